@@ -18,7 +18,7 @@ pub const META: PropMeta = PropMeta {
     level: "exploration",
     rule: "cases = (registry after ensure_unique_type_paths, settings with a root name that is not a path segment): simulator programs (all forms: unit/tuple/named structs and enums with and without unused parameters, empty enums with parameters, type aliases hiding a Box, recursion through Box/Vec/maps), associated-type families after de-duplication, Polkadot and sub-registries. Oracles on the emitted tokens: syn parse as a file; module-tree reader (one root module, `use super::root` everywhere, pub items, unique names per module in the type namespace, unique variants); name resolution + arity check of every root-rooted path in every field type and in resolve_type_path(id) of every id; every bare identifier must be a declared generic of its item; every declared generic must be used by a field or a PhantomData marker; inline-cycle detection on closed instantiations (direct fields, Option, Result, tuples, arrays, Range, Compact are inline; Box, Vec and the alloc collections, PhantomData and substituted types are not). Quick tier additionally compiles one batch of generated modules with rustc + parity-scale-codec derives; thorough compiles many. non-trivial = generation succeeded with >= 1 item; distinct by hash of registry+settings.",
     assumptions: &["substituted / unknown absolute paths are opaque leaves", "rustc is used as a runtime environment for the artifact, not as a prover"],
-    required_counters: &["paths_resolved", "generics_checked", "cycle_roots_examined", "modules_parsed", "phantom_markers_seen"],
+    required_counters: &["paths_resolved", "generics_checked", "cycle_roots_examined", "modules_parsed", "phantom_markers_seen", "rustc_cases_compiled"],
     floor: (300, 5000),
     shards: (16, 16),
 };
@@ -243,6 +243,18 @@ pub fn sim_case(ctx: &mut Ctx, case: u64, cfg: GenCfg) {
 }
 
 pub fn run(ctx: &mut Ctx) {
+    // rustc tier: with codec derives configured the module must compile
+    let batches = ctx.tier.pick(1usize, 12usize);
+    if ctx.shard < batches.min(4) {
+        let mut b = ctx.shard;
+        while b < batches {
+            let inputs = crate::mon::c01::artifact_inputs(ctx, &format!("rustc-{}-{b}", ctx.seed), ctx.tier.pick(60, 150), b == 0, true);
+            let st = crate::art::run_batch(ctx, "C02", inputs, ctx.shard, 1);
+            ctx.count("rustc_batches", 1);
+            ctx.count("rustc_cases_compiled", st.compiled);
+            b += 4;
+        }
+    }
     let n = ctx.tier.pick(3000u64, 150_000u64);
     for case in 0..n {
         if !ctx.mine(case) {
@@ -288,6 +300,19 @@ pub fn replay(ctx: &mut Ctx, v: &serde_json::Value) {
     let reg = reg::from_json(&v["registry"]);
     let d: SDesc = serde_json::from_value(v["sdesc"].clone()).expect("sdesc");
     let alias = v["alias_hidden_box"].as_bool().unwrap_or(false);
+    if v["via"].as_str() == Some("rustc") {
+        let inp = crate::art::ArtInput {
+            label: "replay".into(),
+            reg: reg.clone(),
+            d: d.clone(),
+            unjudged: BTreeSet::new(),
+            source: v["source"].as_str().map(|s| s.to_string()),
+        };
+        let st = crate::art::run_batch(ctx, "C02", vec![inp], 0, 1);
+        ctx.count("rustc_cases_compiled", st.compiled);
+        ctx.case(0, true);
+        return;
+    }
     let vv = v.clone();
     let nt = judge(ctx, &reg, &d, alias, &move || vv.clone());
     ctx.case(0, nt);
